@@ -136,6 +136,11 @@ func c17Script(c *Ctx, track bool, gen string) Case {
 		line, _ := drv.UnH(f["line"])
 		want, _ := drv.UnH(f["nick"])
 		descs = append(descs, e.desc)
+		if strings.Contains(line, " 433 ") && c.R.P(1, 3) {
+			// the explanatory text of a numeric is for humans and some servers leave it out: `433 * nick` says the same
+			line = strings.TrimSuffix(line, " :Nickname is already in use")
+			descs[len(descs)-1] += " (no text)"
+		}
 		rep := rg.raw(line)
 		cs.Reqs = append(cs.Reqs, "cl raw "+drv.H(line))
 		cs.Impl = append(cs.Impl, rep)
